@@ -141,6 +141,15 @@ void Ctx::onM2M(const void* symb, long symbIndex, const Coord& symbCoord, long l
             if (c.level == 1 && codes[k] != RefGrid::codeChild(c.coord))
                 addViolation("argcheck", "M2M.top.child-code", "level-1 cell " + cstr(c.coord) + " handed to the top tree with position code " + std::to_string(codes[k]));
         }
+        // data flow through the virtual levels: the children are the object M2M wrote one level below; the parent is THE object of this level
+        const void* kobj = calls.empty() ? nullptr : calls.back().kthis;
+        if (view && TreeView::find(view->byMult, children[0]) < 0) {
+            auto below = topMult.find(std::make_pair(kobj, level + 1));
+            if (below != topMult.end()) for (long k = 0; k < n; ++k) if (children[size_t(k)] != below->second) { addViolation("argcheck", "M2M.top.child-object", "a child at virtual level " + std::to_string(level + 1) + " is not the multipole M2M produced for that level"); break; }
+        }
+        auto here = topMult.find(std::make_pair(kobj, level));
+        if (here != topMult.end() && here->second != parent) addViolation("argcheck", "M2M.top.parent-object", "virtual level " + std::to_string(level) + " is written into a different multipole than before");
+        topMult[std::make_pair(kobj, level)] = parent;
         return;
     }
     const TreeView& v = *view;
@@ -185,6 +194,13 @@ void Ctx::onL2L(const void* symb, long symbIndex, const Coord& symbCoord, long l
             if (c.level == 1 && codes[k] != RefGrid::codeChild(c.coord))
                 addViolation("argcheck", "L2L.top.child-code", "level-1 cell " + cstr(c.coord) + " handed to the top tree with position code " + std::to_string(codes[k]));
         }
+        const void* kobj = calls.empty() ? nullptr : calls.back().kthis;
+        auto here = topLocal.find(std::make_pair(kobj, level));
+        if (here != topLocal.end() && here->second != parent) addViolation("argcheck", "L2L.top.parent-object", "the parent at virtual level " + std::to_string(level) + " is not the local expansion M2L filled for that level");
+        if (view && TreeView::find(view->byLocal, children[0]) < 0) {
+            auto below = topLocal.find(std::make_pair(kobj, level + 1));
+            if (below != topLocal.end()) for (long k = 0; k < n; ++k) if (children[size_t(k)] != below->second) { addViolation("argcheck", "L2L.top.child-object", "the child at virtual level " + std::to_string(level + 1) + " is not the local expansion M2L filled for that level"); break; }
+        }
         return;
     }
     const TreeView& v = *view;
@@ -226,6 +242,12 @@ void Ctx::onM2L(const void* symb, long symbIndex, const Coord& symbCoord, long l
             if (RefGrid::cheb(off) < 2) addViolation("argcheck", "M2L.top.adjacent", "offset " + cstr(off) + " is adjacent");
         }
         if (!distinctCodes(codes, n)) addViolation("argcheck", "M2L.top.duplicate-code", "duplicate position code");
+        const void* kobj = calls.empty() ? nullptr : calls.back().kthis;
+        auto src = topMult.find(std::make_pair(kobj, level));
+        if (src != topMult.end()) for (long k = 0; k < n; ++k) if (srcs[size_t(k)] != src->second) { addViolation("argcheck", "M2L.top.source-object", "a source at virtual level " + std::to_string(level) + " is not the multipole M2M produced for that level"); break; }
+        auto here = topLocal.find(std::make_pair(kobj, level));
+        if (here != topLocal.end() && here->second != target) addViolation("argcheck", "M2L.top.target-object", "virtual level " + std::to_string(level) + " is transferred into a different local expansion than before");
+        topLocal[std::make_pair(kobj, level)] = target;
         return;
     }
     const TreeView& v = *view;
